@@ -7,7 +7,7 @@ alone: each initiator's adr carries its index in the low bits.
 import random
 
 from vmon import env  # noqa: F401
-from vmon.simkit import Top, Mon, Stop, simulate, bits, biased_bits, spell_features
+from vmon.simkit import Top, Mon, Stop, simulate, bits, biased_bits, spell_features, new_map
 
 from amaranth import Value
 from amaranth_soc import wishbone
@@ -153,7 +153,7 @@ def run_arb_case(case, judged):
             # memory map and is known to that decoder
             try:
                 gb = (dw // d["gran"]).bit_length() - 1
-                ib.memory_map = MemoryMap(addr_width=max(1, aw + gb), data_width=d["gran"])
+                ib.memory_map = new_map(addr_width=max(1, aw + gb), data_width=d["gran"])
                 up = wishbone.Decoder(addr_width=aw + 2, data_width=dw, granularity=d["gran"],
                                       features={f for f in d["features"] if f in ("err", "rty", "stall")})
                 up.add(ib, name=f"port{i}")
